@@ -27,6 +27,7 @@ import (
 	"verif/harness/internal/ev"
 	"verif/harness/internal/gt"
 	"verif/harness/internal/keys"
+	"verif/harness/internal/probe"
 	"verif/harness/internal/strs"
 )
 
@@ -117,7 +118,10 @@ func runOwn(ctx context.Context, text []byte, kp keys.Pair, interp bool, yamlOK 
 	return
 }
 
-func (a result) diff(b result, deterministicSig bool) string {
+// yamlUnstable is set per case: the document holds a key with an overflowing digit run, for which
+// yaml.v3's key sorter is not a strict weak order (known finding F11) - the YAML bytes of a Go map
+// then vary from call to call, sequentially too, and only the parsed YAML is compared.
+func (a result) diff(b result, deterministicSig, yamlUnstable bool) string {
 	switch {
 	case a.err != b.err:
 		return fmt.Sprintf("error %q vs %q", a.err, b.err)
@@ -127,8 +131,17 @@ func (a result) diff(b result, deterministicSig bool) string {
 		return fmt.Sprintf("steps/verified %d/%d vs %d/%d", a.nsteps, a.verified, b.nsteps, b.verified)
 	case deterministicSig && !bytes.Equal(a.json, b.json):
 		return "JSON bytes differ"
-	case deterministicSig && !bytes.Equal(a.yaml, b.yaml):
+	case deterministicSig && !yamlUnstable && !bytes.Equal(a.yaml, b.yaml):
 		return "YAML bytes differ"
+	case deterministicSig && yamlUnstable && len(a.yaml) > 0:
+		ta, ea := gt.FromYAML(a.yaml)
+		tb, eb := gt.FromYAML(b.yaml)
+		if ea != nil || eb != nil {
+			return fmt.Sprintf("marshalled YAML does not decode: %v / %v", ea, eb)
+		}
+		if df := gt.Diff(ta, tb, gt.Opt{IgnoreOrder: true}); df != "" {
+			return "YAML differs beyond the order of keys: " + df
+		}
 	}
 	return ""
 }
@@ -204,6 +217,10 @@ func TestPropConcurrentUse(t *testing.T) {
 		interp := rapid.Bool().Draw(t, "interp")
 		yamlOK := !doc.HasString(d.Meaning, func(s string) bool { return !strs.YAMLLegOK(s) || s == "<<" }) && !doc.HasKey(d.Meaning, func(k string) bool { return k == "<<" || !strs.YAMLLegOK(k) })
 
+		yamlUnstable := ev.Known("F11") && doc.HasKey(d.Meaning, probe.LongDigitRun)
+		if yamlUnstable && yamlOK {
+			rec.Excluded("yaml byte comparison: key with an overflowing digit run (known finding F11); parsed YAML compared instead")
+		}
 		// (a) sequential reference, then 16 private copies concurrently
 		ref := runOwn(ctx, d.YAML, kp, interp, yamlOK)
 		if strings.HasPrefix(ref.err, "sign / marshal / verify modified") {
@@ -230,7 +247,7 @@ func TestPropConcurrentUse(t *testing.T) {
 		close(start)
 		wg.Wait()
 		for i, r := range results {
-			if df := ref.diff(r, det); df != "" {
+			if df := ref.diff(r, det, yamlUnstable); df != "" {
 				t.Fatalf("goroutine %d working on its own copy got a different result than the sequential run: %s\n%s", i, df, d.YAML)
 			}
 		}
